@@ -189,7 +189,7 @@ var plans = map[string]*Plan{
 	"C05": withCluster(ctlPlan("C05", 25, 1250, map[string]int64{"io_write": 200, "settled_points": 300, "rebuild_cycles": 1},
 		"C02's histories; per operation with failing set F (error, lost reply, timeout, monitor event before/after the I/O, process death): if the survivors form a majority and an RW replica is among them the operation is acknowledged, every failed replica is ERR-or-absent when the call returns and absent once its monitor event was consumed, a detached replica receives no further call; non-trivial = case contains a fault assignment; distinct as C02"),
 		2, 8, 3, "SIGKILL / SIGSTOP of one of three real replica processes under write load must not make any write fail, the replica must leave the controller's list, and it comes back only through a rebuild (log evidence of reload-and-verify)"),
-	"C03": ctlPlan("C03", 19, 375, map[string]int64{"settled_points": 300, "mutations_attempted_readonly": 30},
+	"C03": ctlPlan("C03", 13, 375, map[string]int64{"settled_points": 300, "mutations_attempted_readonly": 30},
 		"membership walks for RF 1..5: 4-14 changes drawn from add, file-sync+verify, explicit removal, monitor failure (with and without process death), operator set-mode ERR/RW, I/O with fault assignments, duplicate/unknown-address requests, snapshots with a failing replica, late register/start requests, restart and re-add; after every change the state is settled (every triggered monitor event acted upon, state stable) and: ReadOnly == (#RW < RF/2+1), a probe write/flush/unmap is refused without reaching any replica iff read-only, and accepted when a quorum is RW; "+
 			"non-trivial = walk visits >2 distinct (RW,WO,ERR,RO,checkpoint) states or contains faults; distinct = hash of the step/state sequence"),
 	"C18": ctlPlan("C18", 100, 2500, map[string]int64{"settled_points": 500},
@@ -258,7 +258,7 @@ var plans = map[string]*Plan{
 		},
 		RaceJobs: func() []Job { return jobs("rpcsim", 2, 12, "", 60*time.Minute) },
 	},
-	"C07": clusterPlan("C07", 6, 2, 16, 9, map[string]int64{"rebuild_cycles": 4, "promotions_checked": 4, "stored_images_compared": 8, "writes_acknowledged": 1000},
+	"C07": clusterPlan("C07", 12, 1, 16, 9, map[string]int64{"rebuild_cycles": 4, "promotions_checked": 4, "stored_images_compared": 8, "writes_acknowledged": 1000},
 		"clusters of real processes (in-process controller with the real remote factory and REST server; jiva replica + jiva sync-agent processes on their own loopback addresses; RF 2-3, volumes of 4-12 MiB) run kill/stop -> detach -> restart -> rebuild cycles under 1-3 foreground writers at three intensities, with pre-failure histories incl. user snapshots; a third of the rebuilds are interrupted (SIGKILL of the rebuilding replica at the Addreplica / syncFiles / reloadAndVerify log markers, with or without its sync agent) and some lose their source; "+
 			"when the replica is first listed RW the writers are paused and (a) the whole volume is read once per reader position through the controller (so the promoted replica serves every chunk through its live block map), (b) extent-exact copies of the promoted and the source directory yield live image and every user snapshot (revert-on-copy): pairwise byte-identical and equal to the model, revision counters and chains equal; the sampled mode timeline must never show two WO replicas nor a restarted replica listed RW before WO; non-trivial = a cycle with acknowledged foreground writes; distinct = configuration + event count"),
 	"C19": clusterPlan("C19", 5, 1, 15, 4, map[string]int64{"clones_completed": 2, "clone_images_compared": 2, "clone_status_samples": 50, "failed_clones_observed": 1},
